@@ -533,11 +533,24 @@ func (w *vC10World) checkStopped(out *[]vC10Res) {
 
 // H_C10_teardown: one or two associations, two environment actions on the first
 // (the second may be none), every interleaving within the bound.
-func H_C10_teardown() {
+func H_C10_teardown() { vC10Teardown(false) }
+
+// H_C10_teardown_deep: the same scenario restricted to ONE association and to
+// pairs of teardown triggers (no request in flight), so that one more
+// preemption per path is affordable in the thorough tier.
+func H_C10_teardown_deep() { vC10Teardown(true) }
+
+func vC10Teardown(deep bool) {
 	n := 1 + vChoose("other_associations", 2)
+	if deep {
+		vAssume(n == 1)
+	}
 	t1 := 1 + vChoose("trigger1", 4) // release, read-timeout, heartbeat-failure, stop
 	t2 := vChoose("trigger2", vC10NTriggers)
 	vAssume(t2 != t1)
+	if deep {
+		vAssume(t2 < vC10Delete)
+	}
 	vAssume(vC10Only1 == 0 || t1 == vC10Only1)
 	vAssume(vC10Only2 < 0 || t2 == vC10Only2)
 	// by symmetry the teardown pair is ordered
@@ -583,6 +596,10 @@ func H_C10_teardown() {
 		vAssert(r.label, r.ok)
 	}
 	vJoin() // every goroutine of the agent has finished
+	if deep {
+		vCover("deep")
+		return
+	}
 	vCover("teardown")
 	vCover(vC10Names[t1])
 	if t2 != vC10None {
